@@ -35,27 +35,22 @@ Local Ltac split_ifs :=
          | |- context [if ?c then _ else _] => destruct c eqn:?
          end.
 
+(* Shape-independent closing tactic: after unfolding the kernel, case-split its
+   conditionals, expand every wrap into `mod` by a literal and let lia (with the
+   euclidean-division hook: Z.quot, Z.rem, /, mod by literals) finish.  Proofs
+   closed this way survive semantics-preserving edits of the Go source (renamed
+   locals, `n*2/3` rewritten as `2*n/3`, reordered tests) and break exactly when
+   the decision changes. *)
+Local Ltac kernel_lia := intros; cbv zeta; split_ifs; wrap_unfold; lia.
+
 (* ========================================================================= *)
 (* consensus: vote thresholds                                                 *)
 (* ========================================================================= *)
 
-(* the shared shape  x > n*2/3  (Go: truncating division, 64-bit int) *)
-Lemma two_thirds_gt x n :
-  0 <= n <= half_i64 ->
-  (x >? wrap_int (Z.quot (wrap_int (n * 2)) 3)) = true <-> 3 * x > 2 * n.
-Proof.
-  intros Hn. rewrite (wrap_int_small (n * 2)) by lia.
-  rewrite quot_nonneg by lia. rewrite wrap_int_small by lia. lia.
-Qed.
-
 Lemma enoughVote_spec voted voters :
   0 <= voters <= half_i64 ->
   enoughVote voted voters = true <-> (voters = 0 \/ 3 * voted > 2 * voters).
-Proof.
-  intros Hn. unfold enoughVote. destruct (voters =? 0) eqn:E.
-  - split; [left; lia | reflexivity].
-  - cbv zeta. rewrite two_thirds_gt by lia. lia.
-Qed.
+Proof. unfold enoughVote. kernel_lia. Qed.
 
 Lemma enoughVote_params_ok : enoughVote_params = ["voted"; "voters"]%string.
 Proof. reflexivity. Qed.
@@ -63,7 +58,7 @@ Proof. reflexivity. Qed.
 Lemma hasOverTwoThirds_spec count n :
   0 <= n <= half_i64 ->
   hasOverTwoThirds count n = true <-> 3 * count > 2 * n.
-Proof. intros. unfold hasOverTwoThirds. apply two_thirds_gt; lia. Qed.
+Proof. unfold hasOverTwoThirds. kernel_lia. Qed.
 
 Lemma hasOverTwoThirds_params_ok : hasOverTwoThirds_params = ["vs.count"; "len(vs.msgs)"]%string.
 Proof. reflexivity. Qed.
@@ -72,7 +67,7 @@ Proof. reflexivity. Qed.
 Lemma overTwoThirdsDecision_spec max n :
   0 <= n <= half_i64 ->
   overTwoThirdsDecision max n = true <-> 3 * max > 2 * n.
-Proof. intros. unfold overTwoThirdsDecision. apply two_thirds_gt; lia. Qed.
+Proof. unfold overTwoThirdsDecision. kernel_lia. Qed.
 
 Lemma overTwoThirdsDecision_params_ok : overTwoThirdsDecision_params = ["max"; "len(vs.msgs)"]%string.
 Proof. reflexivity. Qed.
@@ -102,7 +97,7 @@ Proof. repeat split; reflexivity. Qed.
 
 Lemma matchNID_spec nid1 nid2 :
   matchNID nid1 nid2 = true <-> (nid1 = 0 \/ nid2 = 0 \/ nid1 = nid2).
-Proof. unfold matchNID. split_ifs; lia. Qed.
+Proof. unfold matchNID. kernel_lia. Qed.
 
 Lemma matchNID_sym nid1 nid2 : matchNID nid1 nid2 = matchNID nid2 nid1.
 Proof. apply bool_eq_iff. rewrite !matchNID_spec. lia. Qed.
@@ -114,7 +109,7 @@ Proof. apply bool_eq_iff. rewrite !matchNID_spec. lia. Qed.
 Lemma isValidTransition_spec from to :
   isValidTransition from to = true <->
   (to = 0 /\ (from = 0 \/ from = 8)) \/ to = 2 \/ (to <> 0 /\ to <> 2 /\ from < to).
-Proof. unfold isValidTransition. split_ifs; lia. Qed.
+Proof. unfold isValidTransition. kernel_lia. Qed.
 
 (* within one round (no return to NewHeight / NewRound) steps only move forward *)
 Lemma isValidTransition_forward from to :
@@ -196,11 +191,11 @@ Proof. reflexivity. Qed.
 
 Lemma timestampRangeMin_spec bts th :
   min_i64 <= bts - th <= max_i64 -> timestampRangeMin bts th = bts - th.
-Proof. intros. unfold timestampRangeMin. apply wrap_i64_small. lia. Qed.
+Proof. unfold timestampRangeMin. kernel_lia. Qed.
 
 Lemma timestampRangeMax_spec bts th :
   min_i64 <= bts + th <= max_i64 -> timestampRangeMax bts th = bts + th.
-Proof. intros. unfold timestampRangeMax. apply wrap_i64_small. lia. Qed.
+Proof. unfold timestampRangeMax. kernel_lia. Qed.
 
 (* NewTimestampRange(bts, th).CheckTx accepts exactly the window (bts-th, bts+th] *)
 Lemma timestampRange_window bts th ts :
@@ -218,7 +213,7 @@ Qed.
 Lemma trackerHasGuard_spec ts lts lth :
   min_i64 <= lts + lth <= max_i64 ->
   trackerHasGuard ts lts lth = true <-> lts + lth <= ts.
-Proof. intros. unfold trackerHasGuard. rewrite wrap_i64_small by lia. lia. Qed.
+Proof. unfold trackerHasGuard. kernel_lia. Qed.
 
 Lemma trackerHasGuard_params_ok :
   trackerHasGuard_params = ["ts"; "t.list.ts"; "t.list.th"]%string.
@@ -227,7 +222,7 @@ Proof. reflexivity. Qed.
 (* manager.hasLocatorInCache: a known maximum timestamp in the DB below ts means "not in DB" *)
 Lemma locatorCacheMiss_spec maxTS ts :
   locatorCacheMiss maxTS ts = true <-> maxTS <> 0 /\ maxTS < ts.
-Proof. unfold locatorCacheMiss. cbv zeta. lia. Qed.
+Proof. unfold locatorCacheMiss. kernel_lia. Qed.
 
 Lemma locatorCacheMiss_params_ok :
   locatorCacheMiss_params = ["m.cache[group].maxTSInDB"; "ts"]%string.
@@ -351,22 +346,6 @@ Proof. repeat split; vm_compute; reflexivity. Qed.
 Definition minProofLen_tz (key : Z) : Z :=
   bits_tz64 (wrap_u64 (Z.lnot (wrap_u64 (Z.lxor key (wrap_i64 (key - 1)))))).
 
-Lemma bits_tz64_range x : 0 <= x <= max_u64 -> 0 <= bits_tz64 x <= 64.
-Proof.
-  intros Hx. unfold bits_tz64. destruct (x =? 0) eqn:E; [lia|].
-  assert (Hxp : 0 < x) by lia.
-  split; [apply Z.log2_nonneg|].
-  set (l := Z.land x (- x)).
-  destruct (Z_le_gt_dec l 0) as [Hl0|Hlp].
-  - rewrite Z.log2_nonpos by lia. lia.
-  - assert (Hb : Z.testbit l (Z.log2 l) = true) by (apply Z.bit_log2; lia).
-    unfold l in Hb at 1. rewrite Z.land_spec in Hb. apply andb_true_iff in Hb as [Hbx _].
-    assert (Z.log2 l <= Z.log2 x).
-    { destruct (Z_le_gt_dec (Z.log2 l) (Z.log2 x)); [assumption|].
-      rewrite Z.bits_above_log2 in Hbx by lia. discriminate. }
-    assert (Z.log2 x < 64) by (apply Z.log2_lt_pow2; lia). lia.
-Qed.
-
 Lemma minProofLenForKey_spec key level :
   0 <= level <= max_i64 ->
   minProofLenForKey key level = Z.min level ((minProofLen_tz key + 3) / 4 - 1).
@@ -383,6 +362,52 @@ Qed.
 Lemma minProofLenForKey_le_level key level :
   0 <= level <= max_i64 -> minProofLenForKey key level <= level.
 Proof. intros. rewrite minProofLenForKey_spec by lia. lia. Qed.
+
+Lemma minProofLen_tz_pow2_odd t r :
+  0 <= t -> 0 <= r -> 2 ^ t * (2 * r + 1) <= max_i64 ->
+  minProofLen_tz (2 ^ t * (2 * r + 1)) = t + 1.
+Proof.
+  intros Ht Hr Hmax.
+  assert (Hp : 0 < 2 ^ t) by (apply Z.pow_pos_nonneg; lia).
+  assert (Hk : 1 <= 2 ^ t * (2 * r + 1)) by nia.
+  assert (Ht62 : t <= 62).
+  { destruct (Z_le_gt_dec t 62); [assumption|].
+    assert (2 ^ 63 <= 2 ^ t) by (apply Z.pow_le_mono_r; lia).
+    change (2 ^ 63) with 9223372036854775808 in *. nia. }
+  assert (Hle : 2 ^ (t + 1) <= 2 ^ 63) by (apply Z.pow_le_mono_r; lia).
+  change (2 ^ 63) with 9223372036854775808 in Hle.
+  assert (Hp1 : 0 < 2 ^ (t + 1)) by (apply Z.pow_pos_nonneg; lia).
+  unfold minProofLen_tz.
+  rewrite wrap_i64_small by lia. rewrite lxor_pred_pow2_odd by lia.
+  rewrite (wrap_u64_small (2 ^ (t + 1) - 1)) by lia.
+  replace (Z.lnot (2 ^ (t + 1) - 1)) with (- 2 ^ (t + 1)) by (unfold Z.lnot; lia).
+  assert (E64 : 18446744073709551616 = 2 ^ (t + 1) * (2 * 2 ^ (62 - t))).
+  { change 18446744073709551616 with (2 ^ 64).
+    replace 64 with ((t + 1) + (1 + (62 - t))) by lia.
+    rewrite (Z.pow_add_r 2 (t + 1)) by lia. rewrite (Z.pow_add_r 2 1) by lia. reflexivity. }
+  assert (Hq : 0 < 2 ^ (62 - t)) by (apply Z.pow_pos_nonneg; lia).
+  assert (Ew : wrap_u64 (- 2 ^ (t + 1)) = 2 ^ (t + 1) * (2 * (2 ^ (62 - t) - 1) + 1)).
+  { unfold wrap_u64.
+    replace (- 2 ^ (t + 1)) with (18446744073709551616 - 2 ^ (t + 1) + (-1) * 18446744073709551616) by lia.
+    rewrite Z.mod_add by lia. rewrite Z.mod_small by lia.
+    rewrite E64 at 1. lia. }
+  rewrite Ew. apply bits_tz64_pow2_odd. lia.
+Qed.
+
+(* the meaning: with key = 2^t * odd (t trailing zero bits), the minimal proof length is
+   the number of whole trailing zero hex digits of key, capped by the tree level *)
+Lemma minProofLenForKey_trailing_zeros key level t r :
+  0 <= level <= max_i64 -> 0 <= t -> 0 <= r ->
+  key = 2 ^ t * (2 * r + 1) -> key <= max_i64 ->
+  minProofLenForKey key level = Z.min level (t / 4).
+Proof.
+  intros Hl Ht Hr -> Hk. rewrite minProofLenForKey_spec by lia.
+  rewrite minProofLen_tz_pow2_odd by lia. lia.
+Qed.
+
+Lemma minProofLenForKey_key0 level :
+  0 <= level <= max_i64 -> minProofLenForKey 0 level = Z.min level 15.
+Proof. intros Hl. rewrite minProofLenForKey_spec by lia. reflexivity. Qed.
 
 Lemma minProofLenForKey_params_ok : minProofLenForKey_params = ["key"; "sa.level"]%string.
 Proof. reflexivity. Qed.
@@ -467,14 +492,14 @@ Proof. repeat split; vm_compute; reflexivity. Qed.
 (* p2pDestPeer = 0xFF, p2pDestAny = 0x00 (resolved from network/packet.go) *)
 Lemma onPacketIsOneHop_spec ttl dest :
   onPacketIsOneHop ttl dest = true <-> (ttl <> 0 \/ dest = 255).
-Proof. unfold onPacketIsOneHop. lia. Qed.
+Proof. unfold onPacketIsOneHop. kernel_lia. Qed.
 
 Lemma onPacketIsOneHop_params_ok : onPacketIsOneHop_params = ["pkt.ttl"; "pkt.dest"]%string.
 Proof. reflexivity. Qed.
 
 Lemma onPacketIsBroadcast_spec dest ttl :
   onPacketIsBroadcast dest ttl = true <-> (dest = 0 /\ ttl = 0).
-Proof. unfold onPacketIsBroadcast. lia. Qed.
+Proof. unfold onPacketIsBroadcast. kernel_lia. Qed.
 
 Lemma onPacketIsBroadcast_params_ok : onPacketIsBroadcast_params = ["pkt.dest"; "pkt.ttl"]%string.
 Proof. reflexivity. Qed.
@@ -577,9 +602,7 @@ Lemma ntmNotEnoughParts_spec valid n :
   0 <= n <= half_i64 ->
   ntmNotEnoughParts valid n = true <-> 3 * valid <= 2 * n.
 Proof.
-  intros Hn. unfold ntmNotEnoughParts.
-  rewrite (wrap_int_small (2 * n)) by lia.
-  rewrite quot_nonneg by lia. rewrite wrap_int_small by lia. lia.
+  unfold ntmNotEnoughParts. kernel_lia.
 Qed.
 
 Lemma ntmNotEnoughParts_params_ok :
@@ -603,7 +626,7 @@ Qed.
 (* VerifyPart rejects a proof part whose index is outside [0, len(Validators)) *)
 Lemma ntmPartIndexOutOfRange_spec idx n :
   ntmPartIndexOutOfRange idx n = false <-> 0 <= idx < n.
-Proof. unfold ntmPartIndexOutOfRange. lia. Qed.
+Proof. unfold ntmPartIndexOutOfRange. kernel_lia. Qed.
 
 Lemma ntmPartIndexOutOfRange_params_ok :
   ntmPartIndexOutOfRange_params = ["epp.Index"; "len(pc.Validators)"]%string.
